@@ -318,7 +318,11 @@ func runConcurrentExport(t *testing.T, src, sched *choice.Source, st *Stats) (fs
 		w2 := simio.NewWriter(simio.WriteFaults{})
 		clients[i].solo(w2)
 		if !bytes.Equal(w.Buf, w2.Buf) {
-			return []Finding{{"concurrent_export|harness", clients[i].name + ": two solo runs differ (writer not deterministic: cannot serve as reference)"}}
+			// the writer's output is not a function of its input (it may legitimately
+			// walk a map or stamp something): it cannot serve as its own reference, so
+			// the case is discarded and counted, not judged
+			st.shape("discarded: " + clients[i].name + " not byte-deterministic alone")
+			return nil
 		}
 		solo[i] = w.Buf
 		st.Files++
